@@ -20,7 +20,7 @@ pub fn def() -> CheckDef {
         },
         gen,
         run,
-        rule: "four seeded modes ((d) 'supplementary-case': names with cased letters outside the BMP are stored verbatim, found under the other case, and a second sibling equal up to case is refused - equality follows the crate's documented per-character simple upper-casing, order is not judged): (a) 'siblings': pools of 8-60 valid names mixing ASCII, cased and case-less non-ASCII and supplementary-plane characters, inserted and removed in drawn orders with lookups under drawn letter-case variants and alternative path spellings (./, //, trailing /, x/../), listings after each step; (b) 'validation': names of 1-40 UTF-16 units with and without / \\ : ! created through all four create calls, then looked up verbatim and after reopen; (c) 'disputed': names with characters whose case mapping is disputed - only exact-spelling findability, uniqueness, listing-as-set and listing order == in-order traversal of the stored tree are judged. Refused creations must perform zero seam writes. Image rules R6/R9 are checked by imgck after every mutation. Non-trivial: >= 1 successful creation and >= 1 check; distinct = distinct (seam log, final image) hash.",
+        rule: "every 50th case is a DEEP CHAIN: 66-140 siblings of one storage created in ascending, descending or zig-zag order (the sibling tree degenerates into a path), then lookups under exact and upper-case spellings, duplicate refusals, removals and re-creation at the deep end, before and after reopening. four seeded modes ((d) 'supplementary-case': names with cased letters outside the BMP are stored verbatim, found under the other case, and a second sibling equal up to case is refused - equality follows the crate's documented per-character simple upper-casing, order is not judged): (a) 'siblings': pools of 8-60 valid names mixing ASCII, cased and case-less non-ASCII and supplementary-plane characters, inserted and removed in drawn orders with lookups under drawn letter-case variants and alternative path spellings (./, //, trailing /, x/../), listings after each step; (b) 'validation': names of 1-40 UTF-16 units with and without / \\ : ! created through all four create calls, then looked up verbatim and after reopen; (c) 'disputed': names with characters whose case mapping is disputed - only exact-spelling findability, uniqueness, listing-as-set and listing order == in-order traversal of the stored tree are judged. Refused creations must perform zero seam writes. Image rules R6/R9 are checked by imgck after every mutation. Non-trivial: >= 1 successful creation and >= 1 check; distinct = distinct (seam log, final image) hash.",
         assumptions: &["name order/equality model exact only for agreed character classes (names.rs); disputed classes judged as described", "path syntax is Unix (the sandbox OS)"],
         cpu_limit_s: 300,
         fault_kinds: "none (seam-level write counter for refused creations)",
@@ -74,7 +74,63 @@ pub fn gen(seed: u64, idx: u64, _tier: Tier) -> Case {
         4 => "disputed",
         _ => "supplementary-case",
     };
+    let mode = if idx % 50 == 9 { "deep-chain" } else { mode };
     let mut c = Case::new("C09", mode, version);
+    if mode == "deep-chain" {
+        // 66-140 siblings created in ascending, descending or zig-zag order: the library never
+        // rebalances on insertion, so the sibling tree is a path as deep as the storage is wide;
+        // every name must still be found (exact spelling and other letter case), refused as a
+        // duplicate, removable, and listed once - before and after reopening
+        let n = rng.range(66, 140) as usize;
+        let parent = if rng.chance(1, 3) {
+            c.ops.push(Op::CreateStorage("/deep".into()));
+            "/deep"
+        } else {
+            ""
+        };
+        let names: Vec<String> = (0..n).map(|i| format!("item{:03}", i)).collect();
+        let order: Vec<usize> = match rng.below(3) {
+            0 => (0..n).collect(),
+            1 => (0..n).rev().collect(),
+            _ => (0..n).map(|j| if j % 2 == 0 { j / 2 } else { n - 1 - j / 2 }).collect(),
+        };
+        for (j, &i) in order.iter().enumerate() {
+            let path = format!("{}/{}", parent, names[i]);
+            if rng.chance(1, 4) {
+                c.ops.push(Op::CreateStorage(path));
+            } else {
+                c.ops.push(Op::WriteWhole { path, len: *rng.pick(&[0u64, 5, 64, 200]), nonce: 1200 + j as u32 });
+            }
+        }
+        let probe = |c: &mut Case, rng: &mut Rng| {
+            // the deepest entries (created last) and a few drawn ones
+            let mut which: Vec<usize> = order.iter().rev().take(8).copied().collect();
+            for _ in 0..6 {
+                which.push(rng.usize_below(n));
+            }
+            for i in which {
+                c.ops.push(Op::Exists(format!("{}/{}", parent, names[i])));
+                c.ops.push(Op::Entry(format!("{}/{}", parent, names[i].to_uppercase())));
+            }
+        };
+        probe(&mut c, &mut rng);
+        let last = order[n - 1];
+        c.ops.push(Op::CreateNewStream(format!("{}/{}", parent, names[last].to_uppercase())));
+        c.ops.push(Op::CreateStorage(format!("{}/{}", parent, names[order[n - 2]])));
+        c.ops.push(Op::RemoveStorageAll(format!("{}/{}", parent, names[last])));
+        c.ops.push(Op::RemoveStorageAll(format!("{}/{}", parent, names[order[n - 3]].to_uppercase())));
+        c.ops.push(Op::Exists(format!("{}/{}", parent, names[last])));
+        c.ops.push(Op::WriteWhole { path: format!("{}/{}", parent, names[last]), len: 70, nonce: 1199 });
+        if parent.is_empty() {
+            c.ops.push(Op::ReadRoot);
+        } else {
+            c.ops.push(Op::ReadStorage(parent.to_string()));
+        }
+        c.ops.push(Op::Reopen { strict: rng.chance(1, 2) });
+        probe(&mut c, &mut rng);
+        c.ops.push(Op::Walk);
+        return c;
+    }
     match mode {
         "siblings" | "disputed" => {
             let hi = if rng.chance(1, 4) { 60 } else { 20 };
